@@ -735,13 +735,17 @@ fn main() {
         // keep-alive sequences: every ordered pair of request kinds on one connection; each request
         // is judged by the limit of its own method and URL
         if std::env::var("VERIF_REPLAY").is_err() {
-            let kinds: Vec<(&'static str, &'static str, usize, usize, bool)> = vec![
-                ("PUT", "/vmAgentLog", high, 5, false),
-                ("POST", "/t?id=9", low, 5, false),
-                ("POST", "/t?id=9", low, low + 1, false),
-                ("POST", "/t?id=9", low, low + 1, true),
-                ("PUT", "/vmAgentLog", high, low + 1, false),
-                ("POST", "/machine/?comp=telemetrydata", high, 2 * low, true),
+            // (method, target, limit, body length, chunked, chunk size); with 1 KiB chunks the chunk that crosses the limit is
+            // the last, one-byte chunk and the whole request is on the wire when the refusal comes (the connection survives)
+            let kinds: Vec<(&'static str, &'static str, usize, usize, bool, usize)> = vec![
+                ("PUT", "/vmAgentLog", high, 5, false, 0),
+                ("POST", "/t?id=9", low, 5, false, 0),
+                ("POST", "/t?id=9", low, low + 1, false, 0),
+                ("POST", "/t?id=9", low, low + 1, true, 65536),
+                ("PUT", "/vmAgentLog", high, low + 1, false, 0),
+                ("POST", "/machine/?comp=telemetrydata", high, 2 * low, true, 65536),
+                ("POST", "/t?id=9", low, low + 1, true, 1024),
+                ("POST", "/t?id=9", low, 5, true, 5),
             ];
             for a in &kinds {
                 if stopped_early {
@@ -750,10 +754,11 @@ fn main() {
                 for b in &kinds {
                     sport = if sport >= 39000 { 36000 } else { sport + 1 };
                     let mut c = w.connect(Some(sport), Some(&rec)).unwrap();
+                    let mut refused_before = false;
                     for (step, k) in [a, b].iter().enumerate() {
-                        let (m, t, limit, len, chunked) = **k;
-                        let body = pattern(len, 5);
-                        let cs = [65536usize];
+                        let (m, t, limit, len, chunked, chunk) = **k;
+                        let body = pattern(len, 5 + step as u64);
+                        let cs = [chunk.max(1)];
                         let raw = build_request(m, t, &[("Host", b"metadata")], Some(&body), if chunked { Some(&cs) } else { None });
                         let cur = w.hosts.ws.cursor();
                         let _ = c.send_watchful(&raw);
@@ -762,18 +767,25 @@ fn main() {
                         let bytes = w.hosts.ws.bytes_since(cur);
                         let got = w.hosts.ws.requests_since(cur);
                         evals += 1;
-                        let case = json!({"family": "keepalive-pair", "first": [a.0, a.1, a.3, a.4], "second": [b.0, b.1, b.3, b.4], "step": step});
+                        let case = json!({"family": "keepalive-pair", "first": [a.0, a.1, a.3, a.4, a.5], "second": [b.0, b.1, b.3, b.4, b.5], "step": step});
                         if len > limit {
                             nontrivial.insert(case.to_string());
                             if bytes != 0 {
                                 res.violation("over-limit-body-relayed:keepalive", &format!("request {} on a kept-alive connection: {bytes} bytes of a {len}-byte body (limit {limit}) reached the host", step + 1), case.clone());
                             }
+                            if refused_before && resp.is_err() {
+                                break; // the server closed the connection after refusing the first body: allowed
+                            }
                             if !matches!(resp, Ok(s) if (400..500).contains(&s)) {
                                 res.violation("over-limit-not-answered-4xx:keepalive", &format!("{:?}", resp), case.clone());
                             }
-                            break; // the server may close the connection after refusing a body
+                            // the server may close the connection after refusing a body, or keep it: when it keeps it, the
+                            // next request is judged like any other (nothing of the refused body may ride along)
+                            refused_before = true;
+                        } else if refused_before && resp.is_err() && got.is_empty() {
+                            break; // connection closed after the refusal: allowed
                         } else if !(resp == Ok(200) && got.len() == 1 && got[0].1.body == body) {
-                            res.violation("within-limit-body-not-relayed-intact:keepalive", &format!("request {}: status {:?}, {} requests at host", step + 1, resp, got.len()), case.clone());
+                            res.violation(if refused_before { "within-limit-body-not-relayed-intact:keepalive:after-a-refused-body" } else { "within-limit-body-not-relayed-intact:keepalive" }, &format!("request {}{}: status {:?}, {} requests at host, body at host {:?} bytes (sent {})", step + 1, if refused_before { " (the request before it on this connection was refused for its size)" } else { "" }, resp, got.len(), got.first().map(|g| g.1.body.len()), body.len()), case.clone());
                             break;
                         }
                     }
@@ -781,7 +793,7 @@ fn main() {
                 }
             }
         }
-        res.cov("rule", "body lengths limit-1, limit, limit+1, 2*limit for limit = 102400 on 7 non-exempt (method, URL) pairs incl. near misses of the exempt URLs, and for limit = 104857600 on the exempt uploads (thorough: both uploads and their upper-case variants, both framings; quick: PUT /vmAgentLog at limit and limit+1 with content-length), each as content-length and as chunked; plus every ordered pair of 6 request kinds (exempt/non-exempt, small/over the low limit, both framings) on one keep-alive connection; relayed bodies compared by length and SHA-256; non-trivial = over the limit".to_string());
+        res.cov("rule", "body lengths limit-1, limit, limit+1, 2*limit for limit = 102400 on 7 non-exempt (method, URL) pairs incl. near misses of the exempt URLs, and for limit = 104857600 on the exempt uploads (thorough: both uploads and their upper-case variants, both framings; quick: PUT /vmAgentLog at limit and limit+1 with content-length), each as content-length and as chunked; plus every ordered pair of 8 request kinds (exempt/non-exempt, small/over the low limit, both framings, 64 KiB and 1 KiB chunks) on one keep-alive connection, the second request being judged also after a refused first one when the server keeps the connection; relayed bodies compared by length and SHA-256; non-trivial = over the limit".to_string());
     }
 
     for p in world::take_panics() {
